@@ -41,3 +41,16 @@ Definition run_json (l : list Z) : list Z :=
   | None => [-1]
   | Some o => o ++ drive_enc (length d + 2 + Z.to_nat extra) extra p
   end.
+
+(* ---- the specification side: Json/Grammar.v against encoding/json ---- *)
+From Verif Require Import Json.Grammar.
+
+(* case: |d| d  ->  [1] if valid_b d else [0]      (diffed against encoding/json.Valid) *)
+Definition run_json_valid (l : list Z) : list Z :=
+  let '(d, _) := take_list l in
+  [if valid_b d then 1 else 0].
+
+(* case: |d| d  ->  strip_ws d      (diffed against encoding/json.Compact on valid documents) *)
+Definition run_json_strip (l : list Z) : list Z :=
+  let '(d, _) := take_list l in
+  strip_ws d.
